@@ -101,13 +101,13 @@ void trickySpans(const std::string &text, size_t base, std::vector<std::pair<siz
 }
 
 std::string run(const Scenario &s, CaseInfo &info) {
-  int proto = P_RAW, sep = 0;
+  int proto = P_RAW, sep = 0; bool log = false;
   std::vector<Msg> msgs;
   std::vector<const Op*> cutops;
   int nbatch = 0, batch_left = 0;
   for (auto &op : s.ops) {
     switch (op.code) {
-      case CFG: proto = (int)op.in(0, 0, NPROTO - 1); sep = (int)op.in(1, 0, 3); break;
+      case CFG: proto = (int)op.in(0, 0, NPROTO - 1); sep = (int)op.in(1, 0, 3); log = op.in(2, 0, 1) != 0; break;   // log: traffic logging on for encoder and decoders
       case REQUEST: case NOTIFY: case RESULT: case ERROR_: {
         if (msgs.size() >= 12) break;
         Msg m; m.kind = op.code;
@@ -137,7 +137,10 @@ std::string run(const Scenario &s, CaseInfo &info) {
   }
 
   // ---- encode with the proto's own encoder
+  std::unique_ptr<TrafficLog> tl;
+  if (log) tl.reset(new TrafficLog);   // a registered log channel for the whole case; each proto below gets setLogEnable(true)
   auto enc = mkProto(proto);
+  if (log) TrafficLog::enable(*enc, "c14-enc");
   std::string chunk; int chunks = 0;
   enc->setSendCallback([&](const void *p, size_t n) { chunk.append((const char *)p, n); ++chunks; });
   std::vector<Ev> expected;
@@ -218,6 +221,7 @@ std::string run(const Scenario &s, CaseInfo &info) {
   // ---- decode
   auto decodeRun = [&](const char *what, const std::vector<size_t> &cs) -> std::string {
     auto dec = mkProto(proto);
+    if (log) TrafficLog::enable(*dec, "c14-dec");
     Recorder rec; rec.attach(*dec);
     dec->setSendCallback([](const void *, size_t) {});
     FeedResult fr = feed(*dec, proto, stream, cs);
@@ -257,6 +261,8 @@ std::string run(const Scenario &s, CaseInfo &info) {
   info.cls_if(cut_in_tricky, "cut_inside_tricky_string");
   info.cls_if(cut_in_header, "cut_inside_header");
   info.cls_if(sep != 0, "whitespace_between_messages");
+  info.cls_if(log, "traffic_logging_on");
+  info.cls_if(log && tl->lines >= msgs.size() && !msgs.empty(), "traffic_lines_logged");   // (vacuous if the libraries were built with a STATIC_LOG_LEVEL below TRACE)
   info.cls_if(stream.size() > 3000, "stream>3000_no_bytewise");
   info.nontrivial = proto != P_PACKET && cut_in_tricky;
   return "";
@@ -292,7 +298,7 @@ Scenario expand(uint64_t seed) {
   Scenario sc; auto &v = sc.ops;
   auto mk = [&v](int code, std::vector<int64_t> a) { Op o; o.code = code; o.a = std::move(a); v.push_back(std::move(o)); };
   int proto = (int)r.pick({{4, P_HEADER}, {6, P_RAW}, {2, P_PACKET}});
-  mk(CFG, {proto, r.pick({{3, 0}, {1, 1}, {1, 2}, {1, 3}})});
+  mk(CFG, {proto, r.pick({{3, 0}, {1, 1}, {1, 2}, {1, 3}}), r.pick({{2, 0}, {1, 1}})});
   int nm = (int)r.pick({{2, 1}, {3, 2}, {3, 3}, {2, 5}, {1, 8}});
   auto id = [&]() { return r.pick({{4, r.rng(1, 9)}, {1, 0}, {1, -1}, {1, 2147483647ll}, {1, -2147483648ll}, {1, r.rng(10, 1000000)}}); };
   for (int i = 0; i < nm; ++i) {
@@ -318,7 +324,7 @@ Scenario expand(uint64_t seed) {
 SubDef def = [] {
   SubDef d; d.name = "roundtrip_segmentation";
   d.op_names = {"cfg", "request", "notify", "result", "error", "meth", "null", "bool", "int", "uint", "dbl", "str", "arr", "obj", "key", "batch", "cut"};
-  d.op_arity = {2, 1, 0, 1, 3, 3, 0, 1, 1, 1, 1, 3, 1, 1, 2, 1, 3};
+  d.op_arity = {3, 1, 0, 1, 3, 3, 0, 1, 1, 1, 1, 3, 1, 1, 2, 1, 3};
   d.nt_rule = "stream protos: a generated cut falls inside a string literal that contains a bracket, a brace or an escaped quote";
   d.run = run;
 #ifndef VERIF_ENGINE_FUZZ
